@@ -1,6 +1,8 @@
 package prodrig
 
 import (
+	"fmt"
+	"strconv"
 	"strings"
 
 	"verif/engine/gx"
@@ -63,6 +65,20 @@ var deep = []base{
 	{"idem=1&rm=2&nm=3&np=1&df=timeout-appended,notleader&nogates=1", 4, 6, "deep idem"},
 }
 
+// CodeFaults: one produce fault per Kafka error code sarama knows (and one it does not know).
+func CodeFaults() string {
+	var l []string
+	for c := 1; c <= 88; c++ {
+		if c == 46 {
+			// DUPLICATE_SEQUENCE_NUMBER says "this batch is already in the log": a broker that answers it for a batch it
+			// never appended does not exist (the faithful form is the fault "dupcode")
+			continue
+		}
+		l = append(l, "code"+strconv.Itoa(c))
+	}
+	return strings.Join(append(l, "code-1"), ",")
+}
+
 // C04Family: payload x format generation x codec x batch composition x acks, run with the default
 // schedule and every single deviation (input-first policy: batches of several messages and several
 // partitions per request form by themselves).
@@ -79,6 +95,32 @@ func C04Family() []string {
 						out = append(out, "prod?ver="+ver+"&codec="+codec+"&kv=1&rm=1&nb=1&parts="+parts+"&acks="+acks+"&fm="+fm+"&ff=100&policy=input&faults=notleader,timeout-appended,drop-appended&gates="+Gates)
 					}
 				}
+			}
+		}
+	}
+	return out
+}
+
+// C04Sizes: value sizes around the points where the length prefix of a record changes its width (a record body of 64 and of
+// 8192 bytes; the legacy formats have fixed-width prefixes but share the path), two messages of one partition in one
+// request, plain and compressed; default schedule only.
+func C04Sizes(thorough bool) []string {
+	var out []string
+	sizes := []int{}
+	for n := 50; n <= 70; n++ {
+		sizes = append(sizes, n)
+	}
+	if thorough {
+		for n := 8176; n <= 8256; n++ {
+			sizes = append(sizes, n)
+		}
+	} else {
+		sizes = append(sizes, 8184, 8185, 8186, 8187, 8247, 8248)
+	}
+	for _, ver := range []string{"0.10.2.0", "2.1.0"} {
+		for _, codec := range []string{"none", "gzip"} {
+			for _, n := range sizes {
+				out = append(out, fmt.Sprintf("prod?ver=%s&codec=%s&rm=1&nb=1&parts=0,0&pad=%d&fm=2&ff=100&policy=input&faults=notleader&gates=%s", ver, codec, n, Gates))
 			}
 		}
 	}
@@ -132,6 +174,18 @@ func Scenarios(prop string) []gx.Sc {
 		// connection between being chosen and being told
 		out = append(out, gx.Sc{Name: "prod?rm=0&nm=3&parts=0,1,0&nb=1&policy=input&faults=" + Faults + "&gates=" + Gates + ",pp.syn", Q: 3, T: 4})
 		out = append(out, gx.Sc{Name: "prod?sync=1&rm=0&nm=3&parts=0,1,0&nb=1&policy=input&faults=drop,notleader&gates=" + Gates + ",pp.syn", Q: 2, T: 3})
+	}
+	if prop == "C01" || prop == "C12" || prop == "C05" {
+		// every Kafka error code in place of success (one answer of the run): each code belongs to some class - retried,
+		// fatal, swallowed - and a code that falls between two lists is neither failed nor retried
+		q := "prod?rm=1&nm=2&np=1"
+		if prop == "C05" {
+			q = "prod?idem=1&rm=1&nm=2&np=1"
+		}
+		if prop == "C12" {
+			q += "&closeany=1"
+		}
+		out = append(out, gx.Sc{Name: q + "&faults=codes&gates=" + Gates, Q: 1, T: 1})
 	}
 	if prop == "C18" {
 		out = append(out, gx.Sc{Name: "prod?rm=1&nm=2&icpt=2&icptpanic=1&faults=" + Faults + "&gates=" + Gates, Q: 2, T: 3})
